@@ -21,8 +21,38 @@ _WIP = "check not built yet in this session (design in DESIGN.md section 6); not
 NOT_APPLICABLE = {("C%02d" % i): _WIP for i in range(1, 21)}
 
 PROPS = {
+    "C03": {
+        "engine": "c03", "monitors": ["c03"],
+        "technique": "Coq proof (gate theorem over the executor/transport model for all oracles, extension lists and caches; nesting and exactly-once of processExtensions; cache invariant by induction over histories) + differential correspondence against handler.Server with instrumented extensions",
+        "level_text": "Theorems for every parse/validate oracle, every extension list, every cache kind and every history: a refused or non-200 response contains no operation/root/field interceptor, Exec or resolver event and is errors-only; hooks nest in registration order, each exactly once; the cache holds only validated documents so a hit bypasses no gate; responses are history independent. The event log, status and body class of a real handler.Server are compared with the model over random histories on every check. Concurrent requests: the interleaving of the shared state is NOT yet modelled (the per-request global validator rule swap under SetDisableSuggestion is a known race candidate, see DESIGN section 7): partial.",
+        "level_note": "Trusted: Coq kernel + vm_compute; harness; gqlparser as oracle; mock ExecutableSchema. Concurrency is outside this check (partial).",
+        "trusted": ["parser.ParseQuery / validator.Validate / VariableValues are oracles that are functions of the query text; the harness obtains their verdicts by calling gqlparser directly",
+                    "the ExecutableSchema is a mock that drives RootResolverMiddleware/ResolverMiddleware per root field the way generated code does; hooks of the real generated executor are exercised by the probe-server properties",
+                    "classification of request headers (mime.ParseMediaType on Content-Type and on each Accept part) is done by the harness as input translation"],
+        "assumptions": ["sequential histories only; 'under concurrent requests' is not decided by this check"],
+    },
+    "C07": {
+        "engine": "c07", "monitors": ["c07", "c03"],
+        "technique": "Coq proof (history independence of the pipeline model via the cache invariant; APQ registration as the only memory) + differential fresh-server oracle on real handler.Server histories",
+        "level_text": "Theorem: after any finite history, on any cache kind, the model's response to a request equals a fresh server's; a cached document gives the uncached verdict; the APQ cache is the only memory (C15 invariant). Every request of every generated history is also sent to a freshly constructed real server and status, Content-Type and body must be byte-identical. The sync.Pool of POST parameters and concurrent in-flight requests are exercised only sequentially here: partial.",
+        "level_note": "Trusted: Coq kernel + vm_compute; harness; sync.Pool and gqlparser AST immutability; concurrency not decided (partial).",
+        "trusted": ["parser.ParseQuery / validator.Validate / VariableValues are oracles that are functions of the query text; the harness obtains their verdicts by calling gqlparser directly",
+                    "the ExecutableSchema is a mock that drives RootResolverMiddleware/ResolverMiddleware per root field the way generated code does; hooks of the real generated executor are exercised by the probe-server properties",
+                    "classification of request headers (mime.ParseMediaType on Content-Type and on each Accept part) is done by the harness as input translation"],
+        "assumptions": ["deterministic resolvers (the mock returns constants)", "requests in flight beside each other are not explored by this check"],
+    },
+    "C09": {
+        "engine": "c09", "monitors": ["c09"],
+        "technique": "Coq proof (GET-only-queries, status-by-outcome, refusal status, negotiation and Content-Type presence over the transport model) + differential correspondence against the real transports",
+        "level_text": "Theorems for all documents, operation names, extension lists and caches: over GET anything executes only if the named operation is a query (then 200); non-200 implies nothing executed; execution implies 200; refusals get 422, or 400 under application/graphql-response+json on GET/POST; the repaired code always sets a Content-Type (pinned commit refuted on three paths). Status, events, data-presence and Content-Type of real responses are compared with the model on every check.",
+        "level_note": "Trusted: Coq kernel + vm_compute; harness (header classification); net/http, mime. SSE and multipart/mixed are covered by C12, websocket by C11.",
+        "trusted": ["parser.ParseQuery / validator.Validate / VariableValues are oracles that are functions of the query text; the harness obtains their verdicts by calling gqlparser directly",
+                    "the ExecutableSchema is a mock that drives RootResolverMiddleware/ResolverMiddleware per root field the way generated code does; hooks of the real generated executor are exercised by the probe-server properties",
+                    "classification of request headers (mime.ParseMediaType on Content-Type and on each Accept part) is done by the harness as input translation"],
+        "assumptions": ["the status rule keys on the response Content-Type actually chosen (a configured Content-Type overrides Accept): modelled as observed"],
+    },
     "C10": {
-        "engine": "c10",
+        "engine": "c10", "monitors": ["mon", "c10"],
         "technique": "Coq proof (totality, delivery and frame of the upload-path walker by induction on the path; legacy walker refuted) + differential correspondence against RawParams.AddUpload and malformed requests on every transport",
         "level_text": "Theorems for every variables value and every map path: the repaired AddUpload never panics, on success the addressed position holds the upload and every position leaving the path reads as before; the pinned-commit walker is refuted on five shapes. The model is run against the real AddUpload on all 1- and 2-segment paths over seven variable shapes on every check. Transport-level malformed input (null bodies, bad multipart, websocket frames) is exercised against the real transports with the recover hook counted; that part is observation tied to a small decode model, and rests on encoding/json, mime/multipart and gorilla not panicking (partial).",
         "level_note": "Trusted: Coq kernel + vm_compute; harness (path segmentation by strings.Split/strconv.Atoi is done in the harness as input translation); encoding/json, mime/multipart, gorilla/websocket.",
